@@ -43,7 +43,7 @@ pub(crate) mod kani_verif {
         assert!((sum_max << p.get_checksum_left_shift()) <= 0xffff, "no u16 overflow of the shifted checksum");
         kani::cover!(c != 0, "non-zero checksum reachable");
     }
-    // @h props=C12,C07 tier=quick kind=proved funcs=LmotsAlgorithm::construct_parameter;LmotsAlgorithm::get_from_type;get_num_winternitz_chains contract="parameter row (n=32, w=1): n, w, type code, p == Appendix B, ls == Appendix B"
+    // @h props=C12,C07! tier=quick kind=proved funcs=LmotsAlgorithm::construct_parameter;LmotsAlgorithm::get_from_type;get_num_winternitz_chains contract="parameter row (n=32, w=1): n, w, type code, p == Appendix B, ls == Appendix B"
     #[kani::proof]
     #[kani::unwind(20)]
     fn c12_params_n32_w1() {
@@ -64,14 +64,14 @@ pub(crate) mod kani_verif {
         check_params::<Sha256_256>(32, 4);
         check_params::<Shake256_256>(32, 4);
     }
-    // @h props=C12,C07 tier=quick kind=proved funcs=LmotsAlgorithm::construct_parameter;LmotsAlgorithm::get_from_type;get_num_winternitz_chains contract="parameter row (n=32, w=8): n, w, type code, p == Appendix B, ls == Appendix B"
+    // @h props=C12,C07! tier=quick kind=proved funcs=LmotsAlgorithm::construct_parameter;LmotsAlgorithm::get_from_type;get_num_winternitz_chains contract="parameter row (n=32, w=8): n, w, type code, p == Appendix B, ls == Appendix B"
     #[kani::proof]
     #[kani::unwind(20)]
     fn c12_params_n32_w8() {
         check_params::<Sha256_256>(32, 8);
         check_params::<Shake256_256>(32, 8);
     }
-    // @h props=C12,C07 tier=quick kind=proved funcs=LmotsAlgorithm::construct_parameter;LmotsAlgorithm::get_from_type;get_num_winternitz_chains contract="parameter row (n=24, w=1): n, w, type code, p == Appendix B, ls == Appendix B"
+    // @h props=C12,C07! tier=quick kind=proved funcs=LmotsAlgorithm::construct_parameter;LmotsAlgorithm::get_from_type;get_num_winternitz_chains contract="parameter row (n=24, w=1): n, w, type code, p == Appendix B, ls == Appendix B"
     #[kani::proof]
     #[kani::unwind(20)]
     fn c12_params_n24_w1() {
@@ -99,14 +99,14 @@ pub(crate) mod kani_verif {
         check_params::<Sha256_192>(24, 8);
         check_params::<Shake256_192>(24, 8);
     }
-    // @h props=C12,C07 tier=quick kind=proved funcs=LmotsAlgorithm::construct_parameter;LmotsAlgorithm::get_from_type;get_num_winternitz_chains contract="parameter row (n=16, w=1): n, w, type code, p == Appendix B, ls == Appendix B"
+    // @h props=C12,C07! tier=quick kind=proved funcs=LmotsAlgorithm::construct_parameter;LmotsAlgorithm::get_from_type;get_num_winternitz_chains contract="parameter row (n=16, w=1): n, w, type code, p == Appendix B, ls == Appendix B"
     #[kani::proof]
     #[kani::unwind(20)]
     fn c12_params_n16_w1() {
         check_params::<Sha256_128>(16, 1);
         check_params::<Shake256_128>(16, 1);
     }
-    // @h props=C12,C07 tier=quick kind=proved funcs=LmotsAlgorithm::construct_parameter;LmotsAlgorithm::get_from_type;get_num_winternitz_chains contract="parameter row (n=16, w=2): n, w, type code, p == Appendix B, ls == Appendix B"
+    // @h props=C12,C07! tier=quick kind=proved funcs=LmotsAlgorithm::construct_parameter;LmotsAlgorithm::get_from_type;get_num_winternitz_chains contract="parameter row (n=16, w=2): n, w, type code, p == Appendix B, ls == Appendix B"
     #[kani::proof]
     #[kani::unwind(20)]
     fn c12_params_n16_w2() {
@@ -169,7 +169,7 @@ pub(crate) mod kani_verif {
     fn c12_cksm_n24_w2() {
         check_cksm::<Sha256_192, 24>(2);
     }
-    // @h props=C12,C07,C02 tier=quick kind=proved timeout=1800 funcs=LmotsParameter::checksum;LmotsParameter::append_checksum_to;coef contract="append_checksum_to(Q) == Q || u16(Cksm(Q) << ls) for every 24-byte digest, w=4 (complete: loop bound is the constant u)"
+    // @h props=C12,C07,C02! tier=quick kind=proved timeout=1800 funcs=LmotsParameter::checksum;LmotsParameter::append_checksum_to;coef contract="append_checksum_to(Q) == Q || u16(Cksm(Q) << ls) for every 24-byte digest, w=4 (complete: loop bound is the constant u)"
     #[kani::proof]
     #[kani::stub(<[u8; 32] as tinyvec::Array>::default, fast_default)]
     #[kani::unwind(52)]
@@ -204,7 +204,7 @@ pub(crate) mod kani_verif {
     fn c12_cksm_n16_w4() {
         check_cksm::<Sha256_128, 16>(4);
     }
-    // @h props=C12,C07,C02 tier=quick kind=proved timeout=1800 funcs=LmotsParameter::checksum;LmotsParameter::append_checksum_to;coef contract="append_checksum_to(Q) == Q || u16(Cksm(Q) << ls) for every 16-byte digest, w=8 (complete: loop bound is the constant u)"
+    // @h props=C12,C07!,C02! tier=quick kind=proved timeout=1800 funcs=LmotsParameter::checksum;LmotsParameter::append_checksum_to;coef contract="append_checksum_to(Q) == Q || u16(Cksm(Q) << ls) for every 16-byte digest, w=8 (complete: loop bound is the constant u)"
     #[kani::proof]
     #[kani::stub(<[u8; 32] as tinyvec::Array>::default, fast_default)]
     #[kani::unwind(20)]
